@@ -78,6 +78,12 @@ impl Stats {
     /// # Ok::<(),error::CIError>(())
     /// ```
     pub fn ci(&self, confidence: Confidence, quantile: f64) -> CIResult<Interval<usize>> {
+        #[cfg(stats_ci_verif)]
+        if let Some(_token) = crate::verif_trace::enter("Q") {
+            let result = self.ci(confidence, quantile);
+            crate::verif_trace::quantile(&confidence, self.population, quantile, &result);
+            return result;
+        }
         if quantile <= 0. || 1. <= quantile {
             return Err(error::CIError::InvalidQuantile(quantile));
         }
